@@ -11,14 +11,17 @@ META = {
     "level": "proof",
     "decides": "R-1 single parser entry (who-may-call); R-2 panic ledger: EVERY panic-capable site of the crate (MIR asserts, "
                "calls of #[track_caller] or diverging functions) is enumerated and discharged as guarded (vec-length interval "
-               "proof), documented (table + `# Panics` rustdoc on every public function that reaches it + unreachable from any "
-               "decode entry) or invariant (named argument re-checked each run); R-3 every call cycle reachable from a decode "
+               "proof), documented refusal (unreachable from any decode entry; what it refuses is a missing payload / ciphertext, an "
+               "out-of-range signer index or a condition on the caller's own arguments; every public function that reaches it says so "
+               "in a `# Panics` section) or invariant (named argument re-checked each run); R-3 every call cycle reachable from a decode "
                "entry either consumes a strict sub-Value per call or carries a decremented budget whose zero case is an Err, with "
                "a constant entry budget <= 64; R-4 every loop in decode-reachable code advances a consuming std iterator created "
-               "outside the loop (hang freedom).",
+               "outside the loop (hang freedom), of a type built from finite std sources and finiteness-preserving adapters; R-5 inside such "
+               "a loop no linear-time std operation scans a vector that lives across iterations (no quadratic decoding).",
     "does_not_decide": "ciborium's own safety and its 256-level recursion guard; stack bytes per level (depth is bounded, not bytes; "
                        "the 64-level ceiling assumes <= 12 KiB per level as measured in DESIGN 6.1); time/memory proportionality beyond "
-                       "'no unbounded recursion, loops are linear scans'; allocator failure; panics inside std/ciborium callees that "
+                       "'no unbounded recursion, loops advance a finite iterator, no known linear scan of a persistent vector per iteration' "
+                       "(a hand-written quadratic loop is not seen); allocator failure; panics inside std/ciborium callees that "
                        "are not #[track_caller]",
     "trusted_base": ["ciborium 0.2.x: from_reader bounds nesting at 256 and never panics; into_writer into a Vec<u8> is infallible",
                      "std contracts of Vec::remove / Index / Option::unwrap", "rustc's #[track_caller] / `!` classification of callees"],
